@@ -146,7 +146,9 @@ pub fn pair_grid() -> Vec<(TypeGraph, &'static str)> {
                         ],
                         edges: vec![graph::Edge { from: 0, to: 1, wrap: edge_wrap.to_string() }, graph::Edge { from: 1, to: 2, wrap: (*w).to_string() }, graph::Edge { from: 1, to: 5, wrap: (*w).to_string() }],
                         roots: vec![graph::Root { site: site.to_string(), wrap: w.to_string(), node: 0, file: 0 }],
+                        qualify: false,
                     };
+                    g.qualify = (out.len() / 2) % 3 == 1;
                     // derive spellings and the unit-struct form rotate over the grid
                     let k = out.len() / 2 + ei;
                     g.nodes[1].derive = graph::DERIVE_FORMS[k % graph::DERIVE_FORMS.len()];
